@@ -230,10 +230,14 @@ func c09Two(in, mid, res cty.Type, uns bool, v cty.Value, original bool) c08Out 
 // value of the unified type — the root cause of the recorded finding, nothing else.
 func c09RootComposed(in, mid, res cty.Type, uns bool, v cty.Value, out c08Out) bool {
 	pr := c09Two(in, mid, res, uns, v, false)
+	aw := c09Two(in, mid, res, uns, v, true)
+	if out.kind == "panic" {
+		// the second conversion met a value of a type it was not built for
+		return aw.kind == "panic" && pr.kind != "panic"
+	}
 	if pr.kind != "ok" || len(pr.v.Type().TestConformance(res)) != 0 {
 		return false
 	}
-	aw := c09Two(in, mid, res, uns, v, true)
 	if aw.kind != out.kind {
 		return false
 	}
